@@ -408,8 +408,8 @@ class SharesManager(BaseManager):
         if parents:
             parent = parents[-1]
             children = parent.get_items_for_directory(directory_object)
-            directory_object.items |= children
             parent.items -= children
+            self._move_items(children, directory_object)
 
         self._shared_directories.append(directory_object)
 
@@ -492,13 +492,27 @@ class SharesManager(BaseManager):
         # directory
         if parents:
             parent = parents[-1]
-            parent.items |= shared_directory.items
+            self._move_items(shared_directory.items, parent)
 
         self._cleanup_term_map()
 
         self._event_bus.emit_sync(SharedDirectoryChangeEvent(shared_directory))
 
         return shared_directory
+
+    def _move_items(self, items: set[SharedItem], target: SharedDirectory):
+        """Re-creates the given items as items of the ``target`` directory:
+        the item refers to its directory (locking, remote path) and its
+        ``subdir`` is relative to it
+        """
+        for item in items:
+            absolute_dir = os.path.dirname(item.get_absolute_path())
+            subdir = os.path.relpath(absolute_dir, target.absolute_path)
+            new_item = SharedItem(
+                target, '' if subdir == '.' else subdir, item.filename, item.modified)
+            new_item.attributes = item.attributes
+            target.items.add(new_item)
+            self._add_item_to_term_map(new_item)
 
     def get_shared_directory(self, directory: str) -> SharedDirectory:
         """Calculates the absolute path of given ``directory`` and looks for the
